@@ -323,28 +323,28 @@ PROPS = {
         B("c03", 400, 2400, step=True, kinds_wanted=[1]),
         B("c08", 150, 900)]},   # the same writes with reads cut anywhere, also inside characters
     "C04": {"tags": [2, 3, 7], "ppref": ("C04",), "batches": [
-        B("c04", 400, 2400, step=True, kinds_wanted=[2, 3])]},
+        B("c04", 800, 4800, step=True, kinds_wanted=[2, 3])]},
     "C05": {"tags": SCREEN, "ppref": ("C05",), "batches": [
-        B("c05", 400, 2400, step=True, kinds_wanted=[4])]},
+        B("c05", 800, 4800, step=True, kinds_wanted=[4])]},
     "C06": {"tags": SCREEN, "ppref": ("C06",), "batches": [
-        B("c06", 400, 2400, step=True, kinds_wanted=[5, 14, 2])]},
+        B("c06", 800, 4800, step=True, kinds_wanted=[5, 14, 2])]},
     "C07": {"tags": [2, 3, 7], "ppref": ("C07",), "batches": [
-        B("c07", 400, 2400, step=True, kinds_wanted=[6, 1, 4, 5])]},
+        B("c07", 800, 4800, step=True, kinds_wanted=[6, 1, 4, 5])]},
     "C08": {"tags": ALL, "ppref": ("C08",), "batches": [B("c08", 400, 2400), B("c08", 150, 900, modes="1"), B("c08long", 40, 240, modes="01")], "extra": [grapheme_cut_engine]},
     "C09": {"tags": ALL, "ppref": ("C09",), "batches": [
-        B("c09", 400, 2400, step=True, kinds_wanted=[10, 13]),
+        B("c09", 800, 4800, step=True, kinds_wanted=[10, 13]),
         B("c09cut", 150, 900)]},   # the same sequences with reads cut anywhere, also right after ESC
-    "C10": {"tags": [7, 8], "ppref": ("C10",), "batches": [B("stepall", 400, 2400, step=True), B("mixed", 200, 1200)]},
-    "C11": {"tags": [], "ppref": ("C11",), "batches": [B("mixed", 400, 2400, tags=[]), B("c07", 300, 1800, tags=[])], "extra": [tty_engine]},
+    "C10": {"tags": [7, 8], "ppref": ("C10",), "batches": [B("stepall", 800, 4800, step=True), B("mixed", 400, 2400)]},
+    "C11": {"tags": [], "ppref": ("C11",), "batches": [B("mixed", 800, 4800, tags=[]), B("c07", 600, 3600, tags=[])], "extra": [tty_engine]},
     "C12": {"tags": [], "ppref": ("C12",), "batches": [], "extra": [keys_engine]},
     "C13": {"tags": [], "ppref": ("C13",), "batches": [], "extra": [mouse_engine]},
-    "C14": {"tags": [4], "ppref": ("C14",), "batches": [B("c14", 400, 2400), B("mixed", 200, 1200)]},
+    "C14": {"tags": [4], "ppref": ("C14",), "batches": [B("c14", 800, 4800), B("mixed", 400, 2400)]},
     "C15": {"tags": [], "ppref": ("C15",), "batches": [B("mixed", 150, 900, tags=[])], "extra": [conc_engine]},
     "C16": {"tags": [], "ppref": ("C16",), "batches": [], "extra": [io_engine]},
     "C17": {"tags": ALL, "ppref": ("C17",), "batches": [
-        B("c17", 400, 2400, step=True, kinds_wanted=[7, 15, 9])]},
+        B("c17", 800, 4800, step=True, kinds_wanted=[7, 15, 9])]},
     "C18": {"tags": SCREEN + [7], "ppref": ("C18",), "batches": [
         B("c18", 400, 2400, step=True, kinds_wanted=[11]), B("c18", 150, 900)]},
-    "C19": {"tags": [4, 5], "ppref": ("C19",), "batches": [B("c19", 400, 2400)]},
-    "C20": {"tags": SCREEN, "ppref": ("C20",), "batches": [B("mixed", 400, 2400), B("stepall", 200, 1200, step=True)]},
+    "C19": {"tags": [4, 5], "ppref": ("C19",), "batches": [B("c19", 800, 4800)]},
+    "C20": {"tags": SCREEN, "ppref": ("C20",), "batches": [B("mixed", 800, 4800), B("stepall", 400, 2400, step=True)]},
 }
